@@ -208,7 +208,7 @@ func RunNodeIO(self string, sc IOScenario, base string) Ev {
 	// what the last attempt printed, in the order the child wrote it
 	o, e := EmitPattern("o", last, sc.NOut), EmitPattern("e", last, sc.NErr)
 	lastAll := interleave(sc.Order, o, e)
-	rec := Ev{"id": sc.ID, "sc": sc, "hung": hung, "status": ns.Status.String(), "attempts": attempts, "retryCount": ns.RetryCount,
+	rec := Ev{"id": sc.ID, "sc": sc, "hung": hung, "crashed": false, "status": ns.Status.String(), "attempts": attempts, "retryCount": ns.RetryCount,
 		"logExists": logOK, "err": fmt.Sprint(ns.Error)}
 	if sc.StderrF {
 		rec["log"] = cmp(logb, o)
@@ -272,4 +272,11 @@ func interleave(order string, o, e []byte) []byte {
 		all = append(append([]byte{}, o...), e...)
 	}
 	return all
+}
+
+// CrashedIORecord: the process that ran the step died (e.g. a panic in a goroutine copying the child's output)
+func CrashedIORecord(sc IOScenario, why string) Ev {
+	none := Ev{"got": 0, "want": 0, "equal": true, "hasLast": true, "firstDiff": -1}
+	return Ev{"id": sc.ID, "sc": sc, "hung": false, "crashed": true, "crash": trunc(why, 200), "status": "?", "attempts": 0, "retryCount": 0,
+		"logExists": false, "err": "", "log": none, "stdoutFile": none, "stderrFile": none, "outputVar": none}
 }
